@@ -146,6 +146,21 @@ Example C04_captured_builtin_last_stage :
   map (builtin_child_text true true true) (tl (res_kids r)) = [Some (Some (OPipeW PCapOut), Some (OFile 5 MTrunc))].
 Proof. vm_compute. split; reflexivity. Qed.
 
+(* `<<<` supplies the given word followed by a newline, for EVERY word, the empty one included (`<<< ""` is one newline, never
+   zero bytes); the reader of that pipe is the stage itself (C02_wiring: its descriptor 0 is the read end of ITS here-string pipe) *)
+Theorem C04_herestring_payload : forall word,
+  herestring_payload word = word ++ [10] /\
+  length (herestring_payload word) = S (length word) /\
+  herestring_payload word <> [] /\
+  last (herestring_payload word) 0 = 10 /\
+  herestring_payload [] = [10].
+Proof.
+  intro word. unfold herestring_payload. repeat split.
+  - rewrite app_length. cbn. lia.
+  - destruct word; discriminate.
+  - apply last_last.
+Qed.
+
 (* a source or target that cannot be opened: the stage is not exec'd and exits with status 1;
    otherwise it is exec'd (external), and exactly the files a POSIX shell opens are opened *)
 Theorem C04_unopenable : forall v fail_at openable pl sh i0 o0 e0,
@@ -309,6 +324,7 @@ Print Assumptions C04_parse_from.
 Print Assumptions C04_parse_from_attached.
 Print Assumptions C04_sinks.
 Print Assumptions C04_unopenable.
+Print Assumptions C04_herestring_payload.
 Print Assumptions C04_builtin_child.
 Print Assumptions C04_builtin_sinks.
 Print Assumptions C04_builtin_probe.
